@@ -713,6 +713,22 @@ pub fn parse_mutn(s: &str) -> Mutn {
 fn replay(ctx: &Ctx, path: &std::path::Path) -> i32 {
     let doc: Value = serde_json::from_str(&std::fs::read_to_string(path).expect("replay file")).expect("json");
     let r = &doc["replay"];
+    if !r["reissued"].is_null() {
+        let mut report = Report::new();
+        match super::c01r::replay(r) {
+            Err(e) => {
+                eprintln!("MACHINERY: {}", e);
+                return 2;
+            }
+            Ok(v) => {
+                for (sig, what) in v {
+                    println!("  {} {}", sig, what);
+                    report.violation(sig, what, r.clone());
+                }
+            }
+        }
+        return common::finish(ctx, report, Evidence::new("model_checking"));
+    }
     if !r["certificate_catalog"].is_null() {
         let mut report = Report::new();
         match super::c19::replay_label(&r["certificate_catalog"]) {
@@ -885,6 +901,21 @@ pub fn run_check(ctx: &Ctx) -> i32 {
     for (sig, what, label) in cat_violations {
         report.violation(sig.replacen("C19:", "C01:certificate-catalog:", 1), what, json!({"certificate_catalog": label}));
     }
+    // re-issued credentials: sequences of full / resumed handshakes by two instances of one node id
+    let (re_violations, re_handshakes, re_judged, re_resumed) = match super::c01r::sweep(ctx.tier, ctx.seed) {
+        Ok(r) => r,
+        Err(e) => {
+            eprintln!("MACHINERY: re-issued credentials: {}", e);
+            return 2;
+        }
+    };
+    for (sig, what, label) in re_violations {
+        report.violation(sig, what, label);
+    }
+    if report.violations.is_empty() && (re_resumed == 0 || re_judged < re_handshakes) {
+        eprintln!("MACHINERY: vacuous re-issued-credentials sweep ({} handshakes, {} judged, {} resumptions)", re_handshakes, re_judged, re_resumed);
+        return 2;
+    }
     let sample = specs.get(specs.len() / 2).map(|(s, _)| spec_json(s));
     let mut ev = Evidence::new("model_checking");
     ev.set("states", json!(outcomes.len() + honest_runs.len()))
@@ -892,6 +923,7 @@ pub fn run_check(ctx: &Ctx) -> i32 {
         .set("traces_validated_against_impl", json!(executed + honest_runs.len() as u64 * 2))
         .set("exhaustive", json!(true))
         .set("samples", json!([sample, {"untouched": spec_json(&honest_runs[0].0)}]))
+        .set("reissued_credentials", json!({"handshakes": re_handshakes, "sessions_judged_at_both_ends": re_judged, "of_which_resumptions": re_resumed, "rule": "two instances of one node id with certificates carrying different CASE authenticated tags (either the initiator or the responder is the re-issued one), 6 ordered pairs of tag sets, every sequence of 2..n handshakes over the two instances (n = 3 quick, 5 thorough); after every handshake the new session at each end carries the peer's node id and exactly the tags of the peer instance's certificate, equal keys"}))
         .set("certificate_catalog_handshakes", json!(cat_runs))
         .set("certificate_catalog_handshakes_ending_in_a_session", json!(cat_sessions))
         .set("vacuity", json!({"credential_configurations": honest_runs.len(), "attacker_runs": executed, "mutations_not_applicable": not_applicable, "runs_ending_with_sessions_at_both_ends": both, "runs_ending_with_no_session": none, "runs_ending_with_a_session_at_one_end_only": one_side, "distinct_end_states": outcomes.len()}))
